@@ -441,6 +441,24 @@ def build_other(b: Builder):
             add_predicate(d, "x.len() < 3", "closure")
         d.tags = [t for t in d.tags if t not in ("C06",)]
         finish_derives(d, ["Debug", "Clone", "PartialEq", "PartialOrd", "AsRef", "Deref", "Borrow", "Into", "IntoIterator"], idx)
+    for key in ("opt", "arr"):
+        for variant in range(4):
+            idx += 1
+            d = b.new(OTHER_INNERS[key])
+            if key == "opt":
+                san, pred, cond, dflt = "x.map(|v| v.wrapping_abs())", "*x != Some(13)", "x.is_some()", ("Some(-4)", ("list", [-4]))
+            else:
+                san, pred, cond, dflt = "{ let mut x = x; x.sort(); x }", "x[0] <= x[2]", "x[1] != 13", ("[3, 1, 2]", ("list", [3, 1, 2]))
+            if variant in (1, 3):
+                add_with_sanitizer(d, san, SPELLINGS[variant % 4])
+            if variant == 2:
+                add_predicate(d, pred, "closure")
+            if variant == 3:
+                add_custom_validation(d, cond)
+            if variant in (0, 3):
+                d.default = dflt
+            d.tags = [t for t in d.tags if t != "C06"]
+            finish_derives(d, ["Debug", "Clone", "Copy", "PartialEq", "Eq", "PartialOrd", "Ord", "Hash", "AsRef", "Deref", "Borrow", "Into", "IntoIterator"], idx)
     for key in ("vec", "point", "cow", "gvec", "gord"):
         inner = OTHER_INNERS[key]
         base = ["Debug", "Clone", "Copy", "PartialEq", "Eq", "PartialOrd", "Ord", "Hash", "AsRef", "Deref", "Borrow", "Into", "Display", "FromStr", "IntoIterator"]
